@@ -2,7 +2,7 @@
    ONLY statements closed by [exact], each followed by Print Assumptions.
    Per-axis statements quantify over every axis lo < hi with k > 0 cells (geometry in Q);
    field statements over every value type V. *)
-From DF Require Import Prelude Constants_gen Region Mesh Select C01_axis C07_axis C07_nd C07_pad C07_accept C07_ops C07_examples.
+From DF Require Import Prelude Constants_gen Region Mesh Select C01_axis C07_axis C07_nd C07_pad C07_accept C07_ops C07_getitem C07_examples.
 Open Scope Q_scope.
 
 (* pointwise: inside the block the source cell of a point is the block cell shifted by the offset (range selection, extraction by region / name) *)
@@ -744,3 +744,59 @@ Example C07_accept_pad_nonvacuous :
          qlist_eqb (pmin (reg m')) [- (1); 0] = true /\ qlist_eqb (pmax (reg m')) [2; 5] = true.
 Proof. exact ex_pad_accept. Qed.
 Print Assumptions C07_accept_pad_nonvacuous.
+
+(* ================= phase 3: extraction by region / name, n-d ================= *)
+
+(* (a) extraction by a region inside the mesh region is accepted, n-d: per axis the result runs from the lower face of the cell containing the item's lower corner to the upper face of cell ceil(..)-1, contains the item, keeps dims and units *)
+Theorem C07_accept_region :
+  forall m : mesh,
+       wf_mesh m ->
+       forall item : region,
+       Datatypes.length (pmin item) = Datatypes.length (pmin (reg m)) ->
+       Forall2 Qlt (pmin item) (pmax item) ->
+       (forall a : nat,
+        (a < Datatypes.length (pmin (reg m)))%nat ->
+        nth a (pmin (reg m)) 0 <= nth a (pmin item) 0 /\ nth a (pmax item) 0 <= nth a (pmax (reg m)) 0) ->
+       exists m' : mesh,
+         getitem_region m item = OK m' /\
+         dims (reg m') = dims (reg m) /\
+         units (reg m') = units (reg m) /\
+         Datatypes.length (pmin (reg m')) = Datatypes.length (pmin (reg m)) /\
+         (forall a : nat,
+          (a < Datatypes.length (pmin (reg m)))%nat ->
+          let lo := nth a (pmin (reg m)) 0 in
+          let c := nth a (cell m) 0 in
+          let i1 := nth a (first_idx m item) 0%Z in
+          let i2 := nth a (last_idx m item) 0%Z in
+          (0 <= i1)%Z /\
+          (i1 <= i2)%Z /\
+          (i2 < nth a (n m) 1)%Z /\
+          nth a (pmin (reg m')) 0 == lo + inject_Z i1 * c /\
+          nth a (pmax (reg m')) 0 == lo + (inject_Z i2 + 1) * c /\
+          nth a (n m') 0%Z = (i2 - i1 + 1)%Z /\
+          nth a (pmin (reg m')) 0 <= nth a (pmin item) 0 /\ nth a (pmax item) 0 <= nth a (pmax (reg m')) 0).
+Proof. exact (@getitem_region_accepts). Qed.
+Print Assumptions C07_accept_region.
+
+(* (a) extraction by name: a subregion made of whole cells is accepted and is the result region *)
+Theorem C07_accept_name :
+  forall m : mesh,
+       wf_mesh m ->
+       forall (name : string) (s : region) (ks : list Z),
+       lookup name (subs m) = Some s ->
+       wf_region s ->
+       ndim s = Datatypes.length (pmin (reg m)) ->
+       Datatypes.length ks = Datatypes.length (pmin (reg m)) ->
+       (forall a : nat,
+        (a < Datatypes.length (pmin (reg m)))%nat ->
+        (0 < nth a ks 0)%Z /\
+        nth a (pmax s) 0 - nth a (pmin s) 0 == inject_Z (nth a ks 0%Z) * nth a (cell m) 0) ->
+       getitem_name m name = OK {| reg := s; n := ks; bc := ""; subs := [] |}.
+Proof. exact (@getitem_name_accepts). Qed.
+Print Assumptions C07_accept_name.
+
+(* an unknown subregion name is rejected (KeyError) *)
+Theorem C07_reject_unknown_name :
+  forall (m : mesh) (name : string), lookup name (subs m) = None -> getitem_name m name = Err KeyE.
+Proof. exact (@getitem_name_missing). Qed.
+Print Assumptions C07_reject_unknown_name.
